@@ -80,6 +80,9 @@ func (w countingWriter) Flush() {
 // by the goa muxer on a recorder.
 func (s *Svc) Do(req *http.Request) (*http.Response, error) {
 	call := s.cur
+	if c, ok := req.Context().Value(callKey{}).(*Call); ok {
+		call = c // concurrent use: the call record travels in the request context
+	}
 	var buf bytes.Buffer
 	if err := req.Write(&buf); err != nil {
 		return nil, fmt.Errorf("wire: cannot serialise request: %w", err)
@@ -91,6 +94,9 @@ func (s *Svc) Do(req *http.Request) (*http.Response, error) {
 	body, _ := io.ReadAll(sreq.Body)
 	sreq.Body = io.NopCloser(bytes.NewReader(body))
 	sreq.RemoteAddr = "192.0.2.1:1234"
+	if call != nil {
+		sreq = sreq.WithContext(context.WithValue(sreq.Context(), callKey{}, call))
+	}
 	rec := httptest.NewRecorder()
 	if call != nil {
 		call.ServerReq = sreq
@@ -145,6 +151,13 @@ func trimStack(b []byte) string {
 
 func (s *Svc) hook(method string, args []any) []any {
 	call := s.cur
+	if len(args) > 0 {
+		if ctx, ok := args[0].(context.Context); ok {
+			if c, ok := ctx.Value(callKey{}).(*Call); ok {
+				call = c
+			}
+		}
+	}
 	if call == nil {
 		return nil
 	}
@@ -319,6 +332,29 @@ func (s *Svc) Invoke(call *Call, m string, payload any) (res any, err error) {
 		}
 	}()
 	return ep(context.Background(), payload)
+}
+
+// callKey carries the *Call through request contexts so that several calls can be in flight
+// on one mounted service (C20 family B); sequential modes keep using Invoke.
+type callKey struct{}
+
+// InvokeConcurrent is Invoke without the per-service serialisation: the call record travels in
+// the context (client request -> in-memory wire -> server request -> stub hook), so any number
+// of calls may overlap on one Svc. It takes no lock and touches no shared harness state.
+func (s *Svc) InvokeConcurrent(call *Call, m string, payload any) (res any, err error) {
+	call.Method = m
+	epm := s.client.MethodByName(s.GoMethod(m))
+	if !epm.IsValid() {
+		return nil, fmt.Errorf("harness: client has no endpoint method for %q", m)
+	}
+	ep := epm.Call(nil)[0].Interface().(goa.Endpoint)
+	defer func() {
+		if r := recover(); r != nil {
+			err = fmt.Errorf("client panic: %v", r)
+			res = nil
+		}
+	}()
+	return ep(context.WithValue(context.Background(), callKey{}, call), payload)
 }
 
 // RawDo sends a hand-built request through the same wire (used for malformed encodings).
